@@ -5,7 +5,7 @@
    C04/Spec.v.  [final valid h] is the machine state after the history h (any sequence of
    kernel events and psutil calls, any number of generators advanced in any interleaving),
    [irun valid h] the same with the per-generator ghost records. *)
-From PV Require Import C04.Spec C04.Proofs C04.ProofsTable C04.ProofsIter C04.ProofsStale C04.ProofsExact C04.Legacy.
+From PV Require Import C04.Spec C04.ProofsText C04.Proofs C04.ProofsTable C04.ProofsIter C04.ProofsStale C04.ProofsExact C04.Legacy.
 
 (* ---- text level ---- *)
 
@@ -35,6 +35,29 @@ Theorem C04_pid_exists_text : forall pid k r names,
   Val (match k with KOk | KEperm => dec_val (ks_tgid r) =? pid | _ => false end).
 Proof. exact pid_exists_linux_exact. Qed.
 Print Assumptions C04_pid_exists_text.
+
+(* the Tgid probe reads '\n'-separated records only, so the Name record -- of which the kernel escapes only
+   '\n' and '\\' and prints every other byte raw ('\r', '\v', '\f', 0x1c-0x1e, 0x85, ':', tabs ...) -- cannot
+   influence it: for EVERY comm (no condition at all: k_name_line escapes), and every rest of the file *)
+Theorem C04_status_name_independent : forall comm rest,
+  status_tgid (k_name_line comm ++ rest) = status_tgid rest.
+Proof. exact status_name_independent. Qed.
+Print Assumptions C04_status_name_independent.
+
+Theorem C04_pid_exists_name_independent : forall pid k comm rest names,
+  pid_exists_linux pid k (Some (k_name_line comm ++ rest)) names = pid_exists_linux pid k (Some rest) names.
+Proof. exact pid_exists_name_independent. Qed.
+Print Assumptions C04_pid_exists_name_independent.
+
+(* hence over the whole file as printed for a task of ANY name: Tgid == pid after kill OK/EPERM (True for the
+   process, False for one of its threads), False after ESRCH/OverflowError, never an exception *)
+Theorem C04_pid_exists_any_name : forall pid k comm pre tgid post names,
+  forallb wf_preline pre = true -> is_dec tgid = true ->
+  pid_exists_linux pid k
+    (Some (k_status {| ks_pre := k_name_body comm :: pre; ks_tgid := tgid; ks_post := post |})) names =
+  Val (match k with KOk | KEperm => dec_val tgid =? pid | _ => false end).
+Proof. exact pid_exists_any_name. Qed.
+Print Assumptions C04_pid_exists_any_name.
 
 (* ---- the process table in every history ---- *)
 
